@@ -445,6 +445,7 @@ MANIFEST = {
             "alpha+=alphaN; the template ODE is the similarity-variable system in enthalpy form; the "
             "shooting residual vanishes whenever energy and momentum are conserved across the shock "
             "front. (_findTm's energy-flux identity is checked on concrete/folded points only.)"
-            " template.findMatching (semi-concrete EOS, symbolic vw): v- = min(vw, c_b), bracket [0, min(cs^2/vw, vw)] cut at the sign change of w+ for that v-, None only without a sign change, T+ = Tn w+^(1/mu).",
+            " template.findMatching (semi-concrete EOS, symbolic vw): v- = min(vw, c_b), bracket [0, min(cs^2/vw, vw)] cut at the sign change of w+ for that v-, None only without a sign change, T+ = Tn w+^(1/mu)."
+            " template.efficiencyFactor integrates a shock wave exactly below vJ and a rarefaction wave exactly when v- != vw, from mu(vw, v+-) with the right enthalpies, and combines them as 4 (I_sw - I_rw)/(vw^3 alpha_n).",
     "note": "Agreement of converged numbers of the two solvers is numerical and outside.",
 }
